@@ -49,6 +49,29 @@ def main():
         caught_by = "; ".join(f"{k}: " + ", ".join(x.replace(" no-failing-input-found", "*") for x in v["violations"][:4]) for k, v in r["checks"].items() if v["exit"] == 1)
         rows.append((d, meta.get("property"), "caught" if r["caught"] else "MISSED", (files if isinstance(files, str) else ", ".join(files or []))[:80],
                      caught_by, (meta.get("needs_to_manifest") or "")[:160].replace("\n", " ").replace("|", "/")))
+    # earlier rounds: keep their rows (their patch/demo/meta are already under seeded/); when a re-check directory is given (copies of seeded/<id> evaluated again with
+    # tools/eval_seeded.py against the machinery as it is now) the row shows that result, otherwise the one recorded in meta.json
+    recheck = sys.argv[sys.argv.index("--rechecked") + 1] if "--rechecked" in sys.argv else None
+    have = {r[0] for r in rows}
+    for d in sorted(os.listdir(os.path.join(ROOT, "seeded"))):
+        mp = os.path.join(ROOT, "seeded", d, "meta.json")
+        if d in have or not os.path.isfile(mp):
+            continue
+        meta = json.load(open(mp))
+        checks, caught = meta.get("checks", {}), meta.get("caught")
+        rp = os.path.join(recheck, d, "result.json") if recheck else None
+        if rp and os.path.isfile(rp):
+            r = json.load(open(rp))
+            if r.get("patch_applies"):
+                checks = {k: {"exit": v["exit"], "obligations_refuted": v["violations"]} for k, v in r["checks"].items()}
+                caught = r["caught"]
+                meta["checks"], meta["caught"] = checks, caught
+                json.dump(meta, open(mp, "w"), indent=1)
+        files = meta.get("files_changed")
+        caught_by = "; ".join(f"{k}: " + ", ".join(x.replace(" no-failing-input-found", "*") for x in v.get("obligations_refuted", [])[:4]) for k, v in checks.items() if v.get("exit") == 1)
+        rows.append((d, meta.get("property"), "caught" if caught else "MISSED", (files if isinstance(files, str) else ", ".join(files or []))[:80], caught_by,
+                     (meta.get("needs_to_manifest") or "")[:160].replace("\n", " ").replace("|", "/")))
+    rows.sort(key=lambda r: r[0])
     with open(os.path.join(ROOT, "seeded", "RESULTS.md"), "w") as f:
         f.write("# Seeded changes: which checks catch which\n\n"
                 "Each row is a change to /repo produced by a fresh sub-agent that saw only the property text, confirmed by me on scratch copies "
